@@ -106,9 +106,10 @@ theorem C15_same_length_queries_differ :
 /-- **Prompt and counters**: the prompt line starts with the prompt followed by the query, and the
     info line carries `matched/total` (and the selection count under --multi). -/
 theorem C15_prompt_shows_query (o : ROpts) (input : Str) (found total nsel : Nat)
-    (hinfo : o.info ≠ .inline) (hp : o.prompt.length ≤ o.W - 2) (hfit : o.prompt.length + input.length ≤ o.W) :
+    (hinfo : o.info ≠ .inline) (hinfo2 : o.info ≠ .inlineRight) (hp : o.prompt.length ≤ o.W - 2)
+    (hfit : o.prompt.length + input.length ≤ o.W) :
     (promptRow o input found total nsel).take (o.prompt.length + input.length) = o.prompt ++ input :=
-  promptRow_prefix o input found total nsel hinfo hp hfit
+  promptRow_prefix o input found total nsel hinfo hinfo2 hp hfit
 
 theorem C15_info_shows_counts (o : ROpts) (found total nsel : Nat) (hinfo : o.info = .default)
     (hfit : (infoText o found total nsel).length + 3 ≤ o.W) :
